@@ -116,6 +116,10 @@ pub mod rng {
         ensures r@ == normal_seq(state(*old(rng)), n as nat), state(*final(rng)) == normal_state(state(*old(rng)), n as nat)
     { unimplemented!() }
 
+    /// std: a `Vec` of a non-zero-sized element type never holds more than isize::MAX elements
+    /// ("Vec never allocates more than isize::MAX bytes"). Invoked explicitly, only for such types.
+    pub axiom fn ax_vec_len_le_isize_max<X>(v: &Vec<X>) ensures v@.len() <= isize::MAX as int;
+
     /// AMBIENT: `rand::rng()` — the thread-local generator
     #[verifier::external_body]
     pub struct ThreadRng { _p: u8 }
